@@ -22,7 +22,7 @@ Definition ok (c : case) : bool :=
   let n' := N.to_nat n in
   let obs := map N.to_nat sizes in
   nats_eqb obs (expected_sizes 128 n') &&
-  (if (n' <=? 600)%nat then
+  (if (n' <=? 260)%nat then
      let s := exec nat nat S 128 512 4 (rr3 (n' + n' + 8)) (init nat nat (seq 0 n') EOF) in
      terminal nat nat s && nats_eqb (map (@length nat) (client nat nat s)) obs
    else true).
